@@ -91,10 +91,20 @@ func TestCheck(t *testing.T) {
 					runM1Batch(run, offM1+b, from, to, zooDesc, gwDesc)
 				})
 			}
-			// monitor 1, deep inputs
+			// monitor 1, deep inputs: small ones share a child, deep ones get a process each
 			if onlySection(run, offDeep) {
 				ins := deepInputs(run.Thorough())
-				section(run, offDeep, len(ins), deepPar, func(k int) { runDeep(run, k, ins[k]) })
+				var groups [][]int
+				var shared []int
+				for k, in := range ins {
+					if in.Solo {
+						groups = append(groups, []int{k})
+					} else {
+						shared = append(shared, k)
+					}
+				}
+				groups = append([][]int{shared}, groups...)
+				section(run, offDeep, len(groups), deepPar, func(gi int) { runDeepGroup(run, gi, groups[gi], ins) })
 			}
 		}()
 	}
@@ -107,55 +117,104 @@ func TestCheck(t *testing.T) {
 	wg.Wait()
 }
 
-// runDeep runs one stack-overflow-prone input in its own child.
-func runDeep(run *vlib.Run, k int, in deepInput) {
-	tag := fmt.Sprintf("deep%d", k)
-	oc := runChild(tag, []string{"C15_CHILD=deep", fmt.Sprintf("C15_DEEP=%d", k)}, 5*time.Minute)
+// runDeepGroup runs the deep inputs ks in one child, restarting after a
+// crash so that every input gets its verdict.
+func runDeepGroup(run *vlib.Run, gi int, ks []int, ins []deepInput) {
+	attempt := 0
+	for len(ks) > 0 {
+		tag := fmt.Sprintf("deep%d.%d", gi, attempt)
+		attempt++
+		strs := make([]string, len(ks))
+		for i, k := range ks {
+			strs[i] = fmt.Sprint(k)
+		}
+		oc := runChild(tag, []string{"C15_CHILD=deep", "C15_DEEP=" + strings.Join(strs, ",")}, 6*time.Minute)
+		doneIdx := map[int]bool{}
+		for _, r := range oc.results {
+			doneIdx[r.I] = true
+			recordDeepResult(run, gi, ins[r.I], r, oc)
+		}
+		if oc.done {
+			return
+		}
+		// the input that was running when the child stopped
+		cur := oc.lastCase
+		if cur < 0 || doneIdx[cur] && !oc.restart {
+			run.Broken(fmt.Sprintf("deep child %s stopped outside a case (err=%v, log %s)", tag, oc.err, oc.logPath))
+			return
+		}
+		if !doneIdx[cur] {
+			recordDeepCrash(run, gi, ins[cur], oc)
+		}
+		var rest []int
+		seen := false
+		for _, k := range ks {
+			if seen {
+				rest = append(rest, k)
+			}
+			if k == cur {
+				seen = true
+			}
+		}
+		ks = rest
+	}
+}
+
+func deepWitness(in deepInput, oc *childOutcome) map[string]interface{} {
+	return map[string]interface{}{"monitor": "1 no-panic (deep input)", "input_name": in.Name, "how_to_regenerate": in.How,
+		"query_bytes": len(in.Query), "query_head": vlib.Trunc(in.Query, 300), "variables_bytes": len(in.VarsJSON), "child_log": oc.logPath}
+}
+
+func recordDeepResult(run *vlib.Run, gi int, in deepInput, r *caseResult, oc *childOutcome) {
 	run.Count("deep:inputs", 1)
-	wit := func() map[string]interface{} {
-		return map[string]interface{}{"monitor": "1 no-panic (deep input in its own process)", "input_name": in.Name, "how_to_regenerate": in.How,
-			"query_bytes": len(in.Query), "query_head": vlib.Trunc(in.Query, 300), "variables_bytes": len(in.VarsJSON), "child_log": oc.logPath}
+	run.Case("deep|"+in.Name, true)
+	for _, o := range r.Outcomes {
+		run.Count("deep:outcome:"+o, 1)
 	}
-	if oc.done && len(oc.results) == 1 {
-		r := oc.results[0]
-		run.Case("deep|"+in.Name, true)
-		for _, o := range r.Outcomes {
-			run.Count("deep:outcome:"+o, 1)
-		}
-		for _, p := range r.Panics {
-			w := wit()
-			w["what"] = "a panic escaped " + p.Target
-			w["panic"], w["top_thunder_frame"], w["stack"] = p.Value, p.TopFrame, p.Stack
-			run.Violation(offDeep+k, classifyPanic(in.Query, p.Value, p.TopFrame), w)
-		}
-		for _, h := range r.Hangs {
-			w := wit()
-			w["what"] = "call neither returned nor failed and the process went quiet: " + h
-			w["stacks"] = r.HangStacks
-			run.Violation(offDeep+k, "", w)
-		}
-		for _, u := range r.Undecided {
-			run.Inconclusive(fmt.Sprintf("deep input %s: %s still busy at the hard deadline", in.Name, u))
-		}
-		return
+	for _, p := range r.Panics {
+		w := deepWitness(in, oc)
+		w["what"] = "a panic escaped " + p.Target
+		w["panic"], w["top_thunder_frame"], w["stack"] = p.Value, p.TopFrame, p.Stack
+		run.Violation(offDeep+gi, classifyPanic(in.Query, p.Value, p.TopFrame), w)
 	}
+	for _, h := range r.Hangs {
+		w := deepWitness(in, oc)
+		w["what"] = "call neither returned nor failed and the process went quiet: " + h
+		w["stacks"] = r.HangStacks
+		run.Violation(offDeep+gi, classifyHang(h, r.HangStacks), w)
+	}
+	for _, u := range r.Undecided {
+		run.Inconclusive(fmt.Sprintf("deep input %s: %s still busy at the hard deadline", in.Name, u))
+	}
+}
+
+func recordDeepCrash(run *vlib.Run, gi int, in deepInput, oc *childOutcome) {
+	run.Count("deep:inputs", 1)
 	run.Case("deep|"+in.Name+"|crash", true)
 	if oc.crash != "" && !oc.timedOut {
-		w := wit()
+		w := deepWitness(in, oc)
 		w["what"] = "fatal crash of the process inside " + oc.target
 		w["crash"] = vlib.Trunc(oc.crash, 3000)
 		w["top_thunder_frame"] = topThunderFrame(oc.crash)
 		w["expected"] = "the call returns an error or a value"
-		class := ""
+		class := classifyPanic(in.Query, oc.crash, topThunderFrame(oc.crash))
 		if strings.Contains(oc.crash, "stack overflow") || strings.Contains(oc.crash, "goroutine stack exceeds") {
 			w["kind"] = "stack overflow"
 			class = classifyOverflow(in, oc)
 		}
-		run.Violation(offDeep+k, class, w)
+		run.Count("deep:fatal_crashes", 1)
+		run.Violation(offDeep+gi, class, w)
 		return
 	}
 	run.Inconclusive(fmt.Sprintf("deep input %s: child stopped without a verdict (timeout=%v err=%v target=%s log=%s)", in.Name, oc.timedOut, oc.err, oc.target, oc.logPath))
 }
 
-// classifyOverflow names nothing yet: every stack overflow is unclassified.
-func classifyOverflow(in deepInput, oc *childOutcome) string { return "" }
+// classifyOverflow: a stack overflow of the recursive-descent parse on an
+// input whose only remarkable feature is its nesting depth.
+func classifyOverflow(in deepInput, oc *childOutcome) string {
+	if strings.HasPrefix(in.Name, "nest_") && strings.HasPrefix(oc.target, "Parse") &&
+		(strings.Contains(oc.crash, "graphql/language/parser.parse") || strings.Contains(oc.crash, "thunder/graphql.parseSelectionSet") || strings.Contains(oc.crash, "thunder/graphql.valueToJson")) {
+		return "parse-deep-nesting-stack-overflow"
+	}
+	return ""
+}
